@@ -16,6 +16,9 @@ Event   : gen(N, S, pi, sigma, lang, templates, pps[, reuse]) = pydsdl.read_name
           lang   c, cpp, py;  templates: built-in | a user `Any.j2` that emits template-unique names and starts/ends with
                  blank lines;  pps: none | [LimitEmptyLines(1)] | [TrimTrailingWhitespace()],
           reuse  (events after the first) the LanguageContext object of the previous event of the same language is reused.
+          omit/audit/support/reuse_gen: the omit_serialization_support / embed_auditing_info arguments of
+                 generate_all(), a SupportGenerator next to the DSDLCodeGenerator, and "no new objects at all":
+                 generate_all() is called a second time on the SAME generator object(s) with other argument values.
 Search  : depth 1 = the full alphabet; depth 2 = prefix alphabet x last alphabet (reduced, see ALPHABETS below);
           depth 3 (thorough) = a further reduced alphabet.  A history is executed by fork(): the child that executed the
           prefix forks once per last event, so every node of the history tree is a real interpreter state.
@@ -143,6 +146,9 @@ def leaf(ns: str) -> str:
 
 
 # ------------------------------------------------------------------------------------------ events
+FLAG_KEYS = ("omit", "audit", "support", "reuse_gen")
+
+
 def event(
     ns: str,
     types: typing.Sequence[str],
@@ -152,7 +158,15 @@ def event(
     dev: typing.Sequence[typing.Sequence[int]] = (),
     expect: typing.Sequence[int] = (),
     reuse: bool = False,
+    omit: bool = False,
+    audit: bool = False,
+    support: bool = False,
+    reuse_gen: bool = False,
 ) -> dict:
+    """omit/audit = the omit_serialization_support / embed_auditing_info arguments of generate_all(); support = a
+    SupportGenerator is created next to the DSDLCodeGenerator (create_default_generators, shared post-processor list) and
+    runs first, as in the CLI; reuse_gen = no new objects at all: generate_all() is called again on the generator
+    object(s) of the previous event (same namespace tree, same output directory, emptied before)."""
     return {
         "ns": ns,
         "S": list(types),
@@ -162,11 +176,23 @@ def event(
         "dev": [list(d) for d in dev],
         "expect": list(expect),
         "reuse": bool(reuse),
+        "omit": bool(omit),
+        "audit": bool(audit),
+        "support": bool(support),
+        "reuse_gen": bool(reuse_gen),
     }
 
 
+def flagged(ev: dict) -> bool:
+    return any(ev.get(k) for k in FLAG_KEYS)
+
+
+def _flags(ev: dict, keys: typing.Sequence[str] = FLAG_KEYS) -> str:
+    return "+".join(k for k in keys if ev.get(k))
+
+
 def ev_id(ev: dict) -> str:
-    return "{ns}/{lang}/{tpl}/{pps}/{S}/{dev}/{r}".format(
+    base = "{ns}/{lang}/{tpl}/{pps}/{S}/{dev}/{r}".format(
         ns=ev["ns"],
         lang=ev["lang"],
         tpl=ev["tpl"],
@@ -175,11 +201,22 @@ def ev_id(ev: dict) -> str:
         dev=";".join(":".join(map(str, d)) for d in ev["dev"]),
         r="reuse" if ev["reuse"] else "",
     )
+    return base + ("/" + _flags(ev) if flagged(ev) else "")
 
 
-def ref_key(ns: str, types: typing.Sequence[str], lang: str, tpl: str, pps: str) -> str:
-    """types in GENERATION order (t first for closure references, sorted for type-set references)."""
-    return f"{ns}|{lang}|{tpl}|{pps}|{','.join(types)}"
+def plain(ev: dict) -> dict:
+    """The event as a history of its own: nothing reused."""
+    return dict(ev, reuse=False, reuse_gen=False)
+
+
+def ref_event(ev: dict, order: typing.Sequence[str]) -> dict:
+    return event(ev["ns"], order, ev["lang"], ev["tpl"], ev["pps"], omit=ev["omit"], audit=ev["audit"], support=ev["support"])
+
+
+def ref_key(rev: dict) -> str:
+    """Key of a reference event; types in GENERATION order (t first for closure references, sorted for set references)."""
+    f = _flags(rev, ("omit", "audit", "support"))
+    return f"{rev['ns']}|{rev['lang']}|{rev['tpl']}|{rev['pps']}|{','.join(rev['S'])}" + ("|" + f if f else "")
 
 
 class Layout:
@@ -218,12 +255,17 @@ class EvResult(typing.NamedTuple):
     error: typing.Optional[str]
 
 
-_SHARED: typing.Dict[str, typing.Any] = {}  # LanguageContext per language, carried along a history (fork inherits it)
+# carried along a history (fork inherits it): the LanguageContext per language and the generator objects of the last event
+_SHARED: typing.Dict[str, typing.Any] = {}
 _COUNTER = [0]
 
 
 def _site_filter(site: str) -> bool:
     return site.startswith("nunavut._namespace")
+
+
+def _maker(ev: dict) -> tuple:
+    return (ev["ns"], tuple(ev["S"]), ev["lang"], ev["tpl"], ev["pps"], ev["support"])
 
 
 def _make_pps(name: str) -> typing.Optional[list]:
@@ -238,6 +280,7 @@ def run_event(ev: dict, lay: Layout) -> EvResult:
     """One generator invocation on the real code, in THIS interpreter (whatever state it is in)."""
     import pydsdl  # pylint: disable=import-outside-toplevel
     from nunavut import build_namespace_tree  # pylint: disable=import-outside-toplevel
+    from nunavut._generators import create_default_generators  # pylint: disable=import-outside-toplevel
     from nunavut.jinja import DSDLCodeGenerator  # pylint: disable=import-outside-toplevel
 
     from vf import gen  # pylint: disable=import-outside-toplevel
@@ -250,6 +293,11 @@ def run_event(ev: dict, lay: Layout) -> EvResult:
     lookups = [str(lay.inputs / ev["ns"] / "lookup" / r) for r in nsdef.get("lookup", {})]
     _COUNTER[0] += 1
     out = lay.out / f"{os.getpid()}_{_COUNTER[0]}"
+    held = _SHARED.get("gen")
+    if ev["reuse_gen"]:
+        if held is None or held["made_by"] != _maker(ev):
+            raise HarnessError(f"event {ev_id(ev)} reuses a generator object that the previous event did not create")
+        out = held["out"]  # the generator's namespace tree is bound to its output directory
     shutil.rmtree(out, ignore_errors=True)
     out.mkdir(parents=True)
     sched = permset.Scheduler([tuple(d) for d in ev["dev"]], ev["expect"], _site_filter)
@@ -266,12 +314,21 @@ def run_event(ev: dict, lay: Layout) -> EvResult:
             lctx = gen.language_context(ev["lang"])
         _SHARED[ev["lang"]] = lctx
         with permset.scheduled(sched):
-            ns = build_namespace_tree(sel, str(root_dir), str(out), lctx)
-            kwargs: typing.Dict[str, typing.Any] = {"post_processors": _make_pps(ev["pps"])}
-            if ev["tpl"] == "user":
-                kwargs["templates_dir"] = lay.tpl / ev["lang"]
-            g = DSDLCodeGenerator(ns, **kwargs)
-            order = [str(pathlib.Path(p).relative_to(out)) for p in g.generate_all(False, True, False, False)]
+            if ev["reuse_gen"]:
+                g, sg, ns = held["g"], held["sg"], held["ns"]
+            else:
+                ns = build_namespace_tree(sel, str(root_dir), str(out), lctx)
+                kwargs: typing.Dict[str, typing.Any] = {"post_processors": _make_pps(ev["pps"])}
+                if ev["tpl"] == "user":
+                    kwargs["templates_dir"] = lay.tpl / ev["lang"]
+                if ev["support"]:
+                    g, sg = create_default_generators(ns, **kwargs)  # both share the post-processor list (as the CLI does)
+                else:
+                    g, sg = DSDLCodeGenerator(ns, **kwargs), None
+                _SHARED["gen"] = {"g": g, "sg": sg, "ns": ns, "out": out, "made_by": _maker(ev)}
+            if sg is not None:
+                order = [str(pathlib.Path(p).relative_to(out)) for p in sg.generate_all(False, True, ev["omit"], ev["audit"])]
+            order += [str(pathlib.Path(p).relative_to(out)) for p in g.generate_all(False, True, ev["omit"], ev["audit"])]
         type_path = {str(t): str(pathlib.Path(p).relative_to(out)) for t, p in ns.get_all_datatypes()}
         if g.generate_namespace_types:
             ns_paths = [str(pathlib.Path(p).relative_to(out)) for _, p in ns.get_all_namespaces()]
@@ -307,7 +364,7 @@ def pristine() -> None:
         if info is not None and info().currsize != 0:
             raise HarnessError(f"history does not start from a pristine interpreter: {fn.__qualname__} cache is warm")
     if _SHARED:
-        raise HarnessError("history does not start from a pristine interpreter: a LanguageContext is already held")
+        raise HarnessError("history does not start from a pristine interpreter: nunavut objects are already held")
 
 
 # ------------------------------------------------------------------------------------------ fork plumbing
@@ -344,16 +401,21 @@ def in_child(fn: typing.Callable, *args: typing.Any) -> typing.Any:
 
 
 # ------------------------------------------------------------------------------------------ references
-def needed_refs(ev: dict) -> typing.List[typing.Tuple[str, typing.List[str]]]:
-    """[(key, generation order)] the invariant needs for the last event `ev`."""
+def needed_refs(ev: dict) -> typing.List[typing.Tuple[str, dict]]:
+    """[(key, reference event)] the invariant needs for the last event `ev`."""
     out = []
+    if flagged(ev):  # option / generator-object histories: the fresh-process run of the same type set, same options
+        if ev["S"] != sorted(ev["S"]) or ev["dev"]:
+            raise HarnessError("flagged events use the sorted type list and the default schedule")
+        rev = ref_event(ev, ev["S"])
+        return [(ref_key(rev), rev)]
     for t in ev["S"]:
         cl = closure(ev["ns"], t)
-        order = [t] + [x for x in cl if x != t]
-        out.append((ref_key(ev["ns"], order, ev["lang"], ev["tpl"], ev["pps"]), order))
+        rev = ref_event(ev, [t] + [x for x in cl if x != t])
+        out.append((ref_key(rev), rev))
     if ev["lang"] in NAMESPACE_FILE_LANGS:
-        order = sorted(ev["S"])
-        out.append((ref_key(ev["ns"], order, ev["lang"], ev["tpl"], ev["pps"]), order))
+        rev = ref_event(ev, sorted(ev["S"]))
+        out.append((ref_key(rev), rev))
     return out
 
 
@@ -377,18 +439,18 @@ def _ref_one(ev: dict, lay: Layout, key: str) -> dict:
 
 
 def ref_main() -> None:
-    """Entry of the reference subprocess: argv[1] = job file (json: scratch, refs:[[key, ns, order, lang, tpl, pps]]).
+    """Entry of the reference subprocess: argv[1] = job file (json: scratch, refs:[[key, reference event]]).
     Nothing of nunavut has run in this process but the imports; every reference is generated in its own fork() of that
     state, i.e. in an interpreter in which no generator has ever run."""
     job = json.loads(pathlib.Path(sys.argv[1]).read_text())
     lay = Layout(job["scratch"])
     permset.install()
     out = {}
-    for key, ns, order, lang, tpl, pps in job["refs"]:
+    for key, rev in job["refs"]:
         if job.get("direct"):  # self-check mode: this very process generates (exactly one reference per process)
-            out[key] = _ref_one(event(ns, order, lang, tpl, pps), lay, key)
+            out[key] = _ref_one(rev, lay, key)
         else:
-            out[key] = in_child(_ref_one, event(ns, order, lang, tpl, pps), lay, key)
+            out[key] = in_child(_ref_one, rev, lay, key)
     pathlib.Path(sys.argv[2]).write_text(json.dumps(out))
 
 
@@ -479,6 +541,7 @@ def check_last(history: typing.List[dict], r: EvResult, refs: dict, lay: Layout,
             "file_kind": file_kind,
             "cause": cause,
             "language_context": "reused" if ev["reuse"] else "fresh",
+            "generator": "reused" if ev["reuse_gen"] else "fresh",
         }
         case = {"history": history}
         head = f"{ev['lang']}/{ev['tpl']} templates, pps={ev['pps']}, after {len(history) - 1} earlier run(s): "
@@ -495,12 +558,33 @@ def check_last(history: typing.List[dict], r: EvResult, refs: dict, lay: Layout,
     if r.error is not None:
         report("run", "-", "exception:" + r.error.split(":")[0], "earlier_runs" if len(history) > 1 else "earlier_files_in_run")
         return bag, found
+    def differs(key: str, rel: str) -> typing.Optional[bytes]:
+        h = refs[key]["files"][rel]
+        return None if hashlib.sha256(r.files[rel]).hexdigest() == h else _read_ref(lay, key, h)
+
+    if flagged(ev):
+        # options of generate_all() / generator objects used twice: every type (and namespace) file of the last event
+        # must equal the fresh-process run of the same type set with the LAST event's options
+        ((key, _),) = needed_refs(ev)
+        ref = refs[key]
+        for kind, mapping in (("type", r.type_path), ("namespace", {p: p for p in r.ns_paths})):
+            for what, rel in sorted(mapping.items()):
+                if rel not in r.files or rel not in ref["files"]:
+                    report(kind, what, "path_set", "earlier_runs")
+                    continue
+                old = differs(key, rel)
+                if old is None:
+                    continue
+                if len(history) == 1:
+                    raise HarnessError(f"{rel} of {ev_id(ev)} run alone in a fresh fork differs from its reference")
+                for cause in classify(old, r.files[rel], lay):
+                    report(kind, what, cause, "earlier_runs")
+        return bag, found
     first = r.order[0] if r.order else None
     gen_first_type = next((p for p in r.order if p in r.type_path.values()), None)
     for t in ev["S"]:
         cl = closure(ev["ns"], t)
-        order = [t] + [x for x in cl if x != t]
-        key = ref_key(ev["ns"], order, ev["lang"], ev["tpl"], ev["pps"])
+        key = ref_key(ref_event(ev, [t] + [x for x in cl if x != t]))
         ref = refs[key]
         rel = r.type_path.get(t)
         if rel is None or rel not in r.files:
@@ -508,8 +592,8 @@ def check_last(history: typing.List[dict], r: EvResult, refs: dict, lay: Layout,
         if ref["type_path"].get(t) != rel:
             report("type", t, "output_path", "sibling_types")
             continue
-        h = ref["files"][rel]
-        if hashlib.sha256(r.files[rel]).hexdigest() == h:
+        old = differs(key, rel)
+        if old is None:
             continue
         if len(history) > 1:
             dim = "earlier_runs"
@@ -522,16 +606,16 @@ def check_last(history: typing.List[dict], r: EvResult, refs: dict, lay: Layout,
                 f"{t} generated first, alone with its dependencies, in a fresh fork differs from its reference "
                 f"({ev_id(ev)}): the reference is not reproducible"
             )
-        for cause in classify(_read_ref(lay, key, h), r.files[rel], lay):
+        for cause in classify(old, r.files[rel], lay):
             report("type", t, cause, dim)
     if ev["lang"] in NAMESPACE_FILE_LANGS and r.ns_paths:
-        key = ref_key(ev["ns"], sorted(ev["S"]), ev["lang"], ev["tpl"], ev["pps"])
+        key = ref_key(ref_event(ev, sorted(ev["S"])))
         ref = refs[key]
         if sorted(ref["ns_paths"]) != sorted(r.ns_paths):
             report("namespace", "-", "path_set", "type_order")
         for rel in sorted(set(r.ns_paths) & set(ref["ns_paths"])):
-            h = ref["files"][rel]
-            if hashlib.sha256(r.files[rel]).hexdigest() == h:
+            old = differs(key, rel)
+            if old is None:
                 continue
             if len(history) > 1:
                 dim = "earlier_runs"
@@ -541,7 +625,7 @@ def check_last(history: typing.List[dict], r: EvResult, refs: dict, lay: Layout,
                 dim = "type_order"
             else:
                 raise HarnessError(f"namespace file {rel} of the reference configuration differs from the reference ({ev_id(ev)})")
-            for cause in classify(_read_ref(lay, key, h), r.files[rel], lay):
+            for cause in classify(old, r.files[rel], lay):
                 report("namespace", rel, cause, dim)
     return bag, found
 
@@ -557,6 +641,14 @@ def _load_refs(lay: Layout) -> dict:
     return _REFS
 
 
+def _load_alone(lay: Layout) -> typing.Dict[str, set]:
+    """What every last event shows as a history of its own (computed once, in the depth-1 phase of the run)."""
+    if not _ALONE:
+        with open(lay.base / "alone.pkl", "rb") as f:
+            _ALONE.update(pickle.load(f))
+    return _ALONE
+
+
 def _leaf_exec(history: typing.List[dict], lay: Layout, alone: typing.Optional[set], keep: bool = False) -> dict:
     r = run_event(history[-1], lay)
     bag, found = check_last(history, r, _load_refs(lay), lay, alone)
@@ -568,19 +660,6 @@ def _leaf_exec(history: typing.List[dict], lay: Layout, alone: typing.Optional[s
     if keep:
         out["result"] = r
     return out
-
-
-def _alone(ev: dict, lay: Layout, fresh: typing.List[dict]) -> set:
-    """What the event shows when it is the whole history (a depth-1 history in its own right; executed once per worker
-    in a fork of the pristine worker and reported like any other depth-1 history)."""
-    base = dict(ev, reuse=False)
-    k = ev_id(base)
-    if k not in _ALONE:
-        res = in_child(_leaf_exec, [base], lay, None)
-        res["history"] = [base]
-        fresh.append(res)
-        _ALONE[k] = res["found"]
-    return _ALONE[k]
 
 
 def _run_prefix_then(prefix: typing.List[dict], lasts: typing.List[dict], lay: Layout, alone: typing.Dict[str, set]) -> list:
@@ -603,7 +682,10 @@ def _run_prefix_then(prefix: typing.List[dict], lasts: typing.List[dict], lay: L
         bid = ev_id(dict(last, reuse=False))
         known = None
         if prefix:
-            known = set(alone.get(bid, set()))
+            aid = ev_id(plain(last))
+            if aid not in alone:
+                raise HarnessError(f"no depth-1 result recorded for {aid}")
+            known = set(alone[aid])
             if last["reuse"]:
                 known |= by_base[bid]
         res = in_child(_leaf_exec, prefix + [last], lay, known)
@@ -621,20 +703,19 @@ def _history_job(job: dict) -> dict:
     permset.install_clock()
     pristine()
     prefix, lasts = job["prefix"], job["lasts"]
-    singles: typing.List[dict] = []
-    alone = {ev_id(dict(e, reuse=False)): _alone(e, lay, singles) for e in lasts} if prefix else {}
-    results = in_child(_run_prefix_then, prefix, lasts, lay, alone)
-    executions = len(prefix) + len(results) + len(singles)
+    results = in_child(_run_prefix_then, prefix, lasts, lay, _load_alone(lay) if prefix else {})
+    executions = len(prefix) + len(results)
+    found_by_event = {}
+    if not prefix:
+        found_by_event = {ev_id(res["history"][-1]): res["found"] for res in results}
     # sigma: schedules of the permuting-set choice points in nunavut._namespace (depth-1 jobs only)
     if job.get("sigma", "none") != "none" and not prefix:
         more = []
         for res in results:
             ev = res["history"][-1]
             trace = [permset.ChoicePoint(*cp) for cp in res["trace"]]
-            lvl1 = permset.expand((), trace)
-            todo = [(d, permset.arities(trace)) for d in lvl1]
-            for dev, ar in todo:
-                e1 = dict(ev, dev=[list(d) for d in dev], expect=ar[: dev[-1][0] + 1])
+            for dev in permset.expand((), trace):
+                e1 = dict(ev, dev=[list(d) for d in dev], expect=permset.arities(trace)[: dev[-1][0] + 1])
                 r1 = in_child(_run_prefix_then, [], [e1], lay, {})[0]
                 more.append(r1)
                 if job["sigma"] == "two":
@@ -647,7 +728,7 @@ def _history_job(job: dict) -> dict:
     bag = Bag()
     digests = set()
     unique = 0
-    for res in results + singles:
+    for res in results:
         bag.merge(res["bag"])
         digests.add(res["digest"])
         unique += res["unique"]
@@ -657,12 +738,13 @@ def _history_job(job: dict) -> dict:
         "bag": bag,
         "executions": executions,
         "histories": len(results),
-        "singles": len(singles),
+        "found_by_event": found_by_event,
         "digests": digests,
         "unique": unique,
         "sample": sample,
         "sigma_points": sigma_points,
         "deviating": sum(1 for res in results if res["history"][-1]["dev"]),
+        "same_generator": sum(1 for res in results if res["history"][-1]["reuse_gen"]),
     }
 
 
@@ -702,13 +784,41 @@ def prefix_alphabet(nss: typing.Sequence[str], ppss: typing.Sequence[str], tpls:
     ]
 
 
+FLAG_PAIRS = [(o, a) for o in (False, True) for a in (False, True)]  # (omit_serialization_support, embed_auditing_info)
+
+
+def generator_reuse_histories() -> typing.List[typing.Tuple[dict, dict]]:
+    """[gen(flags1) ; the SAME generator object(s): generate_all(flags2)] - every ordered pair of flag combinations
+    (the equal pair = plain repetition), with and without a SupportGenerator next to the DSDLCodeGenerator."""
+    out = []
+    for ns in NAMESPACES:
+        names = sorted(NAMESPACES[ns]["deps"])
+        for lang in LANG_LIST:
+            for tpl in TPLS:
+                for pps in ("none", "limit"):
+                    for support in (False, True):
+                        for o1, a1 in FLAG_PAIRS:
+                            e1 = event(ns, names, lang, tpl, pps, omit=o1, audit=a1, support=support)
+                            for o2, a2 in FLAG_PAIRS:
+                                out.append((e1, dict(e1, omit=o2, audit=a2, reuse_gen=True)))
+    return out
+
+
 def _core1(ev: dict) -> bool:
-    return ev["ns"] == "fan" and ev["pps"] != "trim"
+    return ev["ns"] == "fan" and ((ev["tpl"] == "user" and ev["pps"] == "limit") or (ev["tpl"] == "builtin" and ev["pps"] == "none"))
 
 
 def _core2(a: dict, b: dict) -> bool:
     twins = {a["ns"], b["ns"]} == {"twin_a", "twin_b"}
     return twins and a["lang"] == b["lang"] and a["tpl"] == b["tpl"] and b["pps"] == "limit" and len(b["S"]) > 1
+
+
+def _core_g(a: dict, b: dict) -> bool:
+    """One flag toggled between the two generate_all() calls of one generator pair (built-in templates, all 3 targets)."""
+    if not (a["ns"] == "fan" and a["tpl"] == "builtin" and a["pps"] == "none" and a["support"]):
+        return False
+    fa, fb = (a["omit"], a["audit"]), (b["omit"], b["audit"])
+    return sorted([fa, fb]) in ([(False, False), (True, False)], [(False, False), (False, True)])
 
 
 # ------------------------------------------------------------------------------------------ the check
@@ -741,16 +851,16 @@ def run(ctx: Ctx) -> int:
     in_child(_verify_deps, lay)  # in a fork: the main interpreter must stay pristine (workers are forked from it)
     scratch = str(ctx.scratch)
 
-    # ---- enumerate histories (deterministic; quick = core + seed slice)
-    d1 = []
+    # ---- enumerate histories (deterministic; quick = core + seed slice; deeper levels use a thinner slice)
+    d1: typing.Dict[str, typing.Tuple[dict, bool]] = {}
     d1_space = 0
     for ev, sigma in full_alphabet():
         d1_space += 1
         if ctx.thorough or _core1(ev) or ctx.in_slice("d1|" + ev_id(ev)):
-            d1.append((ev, sigma))
+            d1[ev_id(ev)] = (ev, sigma)
     P2 = prefix_alphabet(list(NAMESPACES), ["none", "limit"])
     L2 = last_alphabet(list(NAMESPACES), PPS)
-    d2: typing.Dict[str, typing.Tuple[dict, typing.List[dict]]] = {}
+    deep: typing.Dict[str, typing.Tuple[typing.List[dict], typing.List[dict]]] = {}  # prefix id -> (prefix, last events)
     d2_space = 0
     for a in P2:
         for b in L2:
@@ -759,9 +869,8 @@ def run(ctx: Ctx) -> int:
                     continue
                 e = dict(b, reuse=reuse)
                 d2_space += 1
-                if ctx.thorough or _core2(a, b) or ctx.in_slice("d2|" + ev_id(a) + ">" + ev_id(e)):
-                    d2.setdefault(ev_id(a), (a, []))[1].append(e)
-    d3: typing.Dict[str, typing.Tuple[typing.List[dict], typing.List[dict]]] = {}
+                if ctx.thorough or _core2(a, b) or ctx.in_slice("d2|" + ev_id(a) + ">" + ev_id(e), 32):
+                    deep.setdefault("2|" + ev_id(a), ([a], []))[1].append(e)
     d3_space = 0
     if ctx.thorough:
         N3 = ["twin_a", "twin_b", "fan"]
@@ -778,30 +887,45 @@ def run(ctx: Ctx) -> int:
                         pre = [a, dict(b, reuse=reuse)]
                         # (reuse, reuse) also brings its twin (reuse in the prefix only): see _run_prefix_then
                         d3_space += 2 if reuse else 1
-                        d3.setdefault(ev_id(pre[0]) + ">" + ev_id(pre[1]), (pre, []))[1].append(dict(c, reuse=reuse))
+                        deep.setdefault("3|" + ev_id(pre[0]) + ">" + ev_id(pre[1]), (pre, []))[1].append(dict(c, reuse=reuse))
         ctx.cap(
             "depth 3 is explored over a reduced alphabet (namespaces twin_a/twin_b/fan, one language per history, "
             "pps=limit in the prefix, LanguageContext reuse pattern in {never, always, prefix only})"
         )
+    g_space = 0
+    for a, b in generator_reuse_histories():
+        g_space += 1
+        if ctx.thorough or _core_g(a, b) or ctx.in_slice("g|" + ev_id(a) + ">" + ev_id(b), 32):
+            deep.setdefault("g|" + ev_id(a), ([a], []))[1].append(b)
     ctx.cap(
         "depth >= 2: prefix events use the full type set in sorted order with pps in {none, limit} "
         "(TrimTrailingWhitespace is stateless, hence symmetric to none as a prefix); last events use S in "
-        "{all types, one leaf type}, sorted order, default nested-namespace order"
+        "{all types, one leaf type}, sorted order, default nested-namespace order; generator-object reuse is explored "
+        "at depth 2 on the full type set (all 16 flag transitions x with/without support generator)"
     )
+    # every last event is also a history of its own (depth 1): what it shows alone is not reported again at depth >= 2
+    extra1 = 0
+    for _, lasts in deep.values():
+        for ev in lasts:
+            base = plain(ev)
+            if ev_id(base) not in d1:
+                d1[ev_id(base)] = (base, False)
+                extra1 += 1
 
     # ---- references (fresh processes)
     need: typing.Dict[str, list] = {}
-    for ev, _ in d1:
-        for key, order in needed_refs(ev):
-            need.setdefault(key, [key, ev["ns"], order, ev["lang"], ev["tpl"], ev["pps"]])
-    for _, lasts in list(d2.values()) + list(d3.values()):  # type: ignore[operator]
+    for ev, _ in d1.values():
+        for key, rev in needed_refs(ev):
+            need.setdefault(key, [key, rev])
+    for _, lasts in deep.values():
         for ev in lasts:
-            for key, order in needed_refs(ev):
-                need.setdefault(key, [key, ev["ns"], order, ev["lang"], ev["tpl"], ev["pps"]])
-    groups: typing.Dict[str, list] = {}
-    for key in sorted(need):
-        groups.setdefault("|".join(key.split("|")[:4]), []).append(need[key])
-    ref_jobs = [{"scratch": scratch, "refs": g} for _, g in sorted(groups.items())]
+            for key, rev in needed_refs(ev):
+                need.setdefault(key, [key, rev])
+    n_groups = max(1, min(2 * ctx.workers, len(need) // 4))
+    groups: typing.List[list] = [[] for _ in range(n_groups)]
+    for i, key in enumerate(sorted(need)):
+        groups[i % n_groups].append(need[key])
+    ref_jobs = [{"scratch": scratch, "refs": g} for g in groups if g]
     index: typing.Dict[str, dict] = {}
     for part in ctx.pool_map(_ref_job, ref_jobs):
         index.update(part)
@@ -813,38 +937,45 @@ def run(ctx: Ctx) -> int:
         again = _ref_job({"scratch": scratch, "refs": [need[key]], "direct": True})
         if again[key]["files"] != index[key]["files"]:
             raise HarnessError(f"reference {key} is not reproducible across fresh processes")
-    # vacuity: the post-processors and the unique-name filter must be effective in the references
+    # vacuity: post-processors, the omit flag and the auditing flag must be effective in the references
     def _ref_bytes(k: str) -> bytes:
         return b"".join(_read_ref(lay, k, h) for _, h in sorted(index[k]["files"].items()))
 
-    eff = {"limit": 0, "trim": 0}
-    for key in need:
-        parts = key.split("|")
-        if parts[3] == "none" and parts[2] == "user":
+    eff = {"limit": 0, "trim": 0, "omit": 0, "audit": 0}
+    for key, (_, rev) in need.items():
+        if rev["pps"] == "none" and rev["tpl"] == "user" and not flagged(rev):
             for pps in ("limit", "trim"):
-                other = "|".join(parts[:3] + [pps] + parts[4:])
+                other = ref_key(dict(rev, pps=pps))
                 if other in index and _ref_bytes(other) != _ref_bytes(key):
                     eff[pps] += 1
-    if eff["limit"] == 0 or eff["trim"] == 0:
-        raise HarnessError(f"post-processors have no visible effect on the user template references: {eff}")
+        for flag in ("omit", "audit"):
+            if rev["tpl"] == "builtin" and rev[flag]:
+                other = ref_key(dict(rev, **{flag: False}))
+                if other in index and _ref_bytes(other) != _ref_bytes(key):
+                    eff[flag] += 1
+    if min(eff.values()) == 0:
+        raise HarnessError(f"post-processors / generate_all() flags without visible effect on the references: {eff}")
 
-    # ---- depth 1 (sigma explored on sorted pi), depth 2, depth 3
-    jobs = []
+    # ---- phase A: depth 1 (sigma explored on sorted pi)
     sig_mode = "two" if ctx.thorough else "one"
-    for ev, sigma in d1:
-        jobs.append({"prefix": [], "lasts": [ev], "sigma": sig_mode if sigma else "none", "scratch": scratch})
-    # group depth-1 jobs to amortize worker dispatch
-    grouped = []
-    for mode in ("none", "one", "two"):
-        evs = [j["lasts"][0] for j in jobs if j["sigma"] == mode]
-        for i in range(0, len(evs), 12 if mode == "none" else 4):
-            grouped.append({"prefix": [], "lasts": evs[i : i + (12 if mode == "none" else 4)], "sigma": mode, "scratch": scratch})
-    for _, (a, lasts) in sorted(d2.items()):
+    jobs_a = []
+    for mode in ("none", sig_mode):
+        evs = [ev for _, (ev, sigma) in sorted(d1.items()) if (sig_mode if sigma else "none") == mode]
+        size = 12 if mode == "none" else 4
+        for i in range(0, len(evs), size):
+            jobs_a.append({"prefix": [], "lasts": evs[i : i + size], "sigma": mode, "scratch": scratch})
+    res_a = ctx.pool_map(_history_job, jobs_a)
+    alone: typing.Dict[str, set] = {}
+    for r in res_a:
+        alone.update(r["found_by_event"])
+    with open(lay.base / "alone.pkl", "wb") as f:
+        pickle.dump(alone, f)
+    # ---- phase B: depth 2 / 3 and generator-object reuse
+    jobs_b = []
+    for _, (pre, lasts) in sorted(deep.items()):
         for i in range(0, len(lasts), 40):
-            grouped.append({"prefix": [a], "lasts": lasts[i : i + 40], "scratch": scratch})
-    for _, (pre, lasts) in sorted(d3.items()):
-        grouped.append({"prefix": pre, "lasts": lasts, "scratch": scratch})
-    results = ctx.pool_map(_history_job, grouped)
+            jobs_b.append({"prefix": pre, "lasts": lasts[i : i + 40], "scratch": scratch})
+    res_b = ctx.pool_map(_history_job, jobs_b)
 
     executions = len(need)
     histories = 0
@@ -852,24 +983,28 @@ def run(ctx: Ctx) -> int:
     by_depth = {1: 0, 2: 0, 3: 0}
     unique = 0
     deviating = 0
+    same_generator = 0
     sigma_points: typing.Set[str] = set()
-    for job, r in zip(grouped, results):
+    for job, r in zip(jobs_a + jobs_b, res_a + res_b):
         ctx.bag.merge(r["bag"])
         executions += r["executions"]
         histories += r["histories"]
         by_depth[len(job["prefix"]) + 1] += r["histories"]
-        by_depth[1] += r["singles"]
-        histories += r["singles"]
         digests |= r["digests"]
         unique += r["unique"]
         deviating += r["deviating"]
+        same_generator += r["same_generator"]
         sigma_points |= set(r["sigma_points"])
-        if r["sample"] and len(ctx.samples) < 6 and (len(job["prefix"]) + 1) not in [len(s) for s in ctx.samples]:
-            ctx.samples.append(r["sample"])
+        if r["sample"] and len(ctx.samples) < 6:
+            shape = (len(r["sample"]), r["sample"][-1]["reuse_gen"])
+            if shape not in [(len(s), s[-1]["reuse_gen"]) for s in ctx.samples]:
+                ctx.samples.append(r["sample"])
     if unique == 0:
         raise HarnessError("no template-unique name was ever emitted: the unique-name state is not exercised")
     if deviating == 0 or not sigma_points:
         raise HarnessError("no nested-namespace choice point was explored")
+    if same_generator == 0:
+        raise HarnessError("no history used a generator object twice")
 
     permset.assert_tree_unchanged(stamp)
     _confirm(ctx, lay)
@@ -882,13 +1017,15 @@ def run(ctx: Ctx) -> int:
         histories_depth2=by_depth[2],
         histories_depth3=by_depth[3],
         depth1_space_without_sigma=d1_space,
+        depth1_events_added_as_last_events=extra1,
         depth2_space=d2_space,
         depth3_space=d3_space,
+        generator_reuse_histories_run=same_generator,
+        generator_reuse_space=g_space,
         sigma_schedules_run=deviating,
         sigma_choice_sites=sorted(sigma_points),
         unique_names_emitted=unique,
-        limiter_effective_refs=eff["limit"],
-        trim_effective_refs=eff["trim"],
+        effective_refs=eff,
     )
     cov = {
         "states": histories + len(need),
@@ -904,8 +1041,10 @@ def run(ctx: Ctx) -> int:
         "bound_completed": (
             f"depth 1: {by_depth[1]} histories = ({'all' if ctx.thorough else 'core+slice of'} {d1_space} events: 5 namespaces x "
             f"every dependency-closed subset x every permutation x 3 languages x 2 template sets x 3 pps) + nested-namespace "
-            f"schedules with <={'2' if ctx.thorough else '1'} deviation(s) on sorted order; depth 2: {by_depth[2]}/{d2_space}; "
-            f"depth 3: {by_depth[3]}/{d3_space}; {len(need)} fresh-process references"
+            f"schedules with <={'2' if ctx.thorough else '1'} deviation(s) on sorted order + {extra1} option events; "
+            f"depth 2: {by_depth[2] - same_generator}/{d2_space}; generator object used twice with "
+            f"(omit, auditing) flag transitions: {same_generator}/{g_space}; depth 3: {by_depth[3]}/{d3_space}; "
+            f"{len(need)} fresh-process references"
         ),
         "exhaustive": False,
     }
@@ -916,8 +1055,10 @@ def run(ctx: Ctx) -> int:
             "a forked copy of an interpreter that has only imported nunavut is a fresh process for the purpose of the "
             "references (three references per run are re-generated by one-shot subprocesses and compared)",
             "clock seam frozen; inputs at one absolute location (C07 owns clock and location)",
-            "only DSDLCodeGenerator runs inside an event (the support generator shares post-processor objects with it "
-            "in the CLI; not modelled)",
+            "the SupportGenerator runs only in the generator-object histories (there it shares the post-processor list "
+            "with the DSDLCodeGenerator as in the CLI); support files themselves are not compared (not per-type files)",
+            "histories with generate_all() options or reused generator objects are compared with the fresh-process run "
+            "of the same type set and the last event's options (not with per-type dependency closures)",
             "pydsdl.read_namespace is called anew for every event, as nunavut.generate_types does",
             "pydsdl 1.25 trusted as front end; dependency closure taken from a hand-written table cross-checked with it",
         ],
@@ -926,6 +1067,11 @@ def run(ctx: Ctx) -> int:
 
 
 # ------------------------------------------------------------------------------------------ confirm / replay
+def _norm_history(history: typing.List[dict]) -> typing.List[dict]:
+    """Replay files written before an event option existed lack its key."""
+    return [dict(event(e["ns"], e["S"], e["lang"], e["tpl"], e["pps"]), **e) for e in history]
+
+
 def _exec_history(history: typing.List[dict], lay: Layout, keep: bool = False) -> dict:
     pristine()
     for ev in history[:-1]:
@@ -938,8 +1084,7 @@ def _exec_history(history: typing.List[dict], lay: Layout, keep: bool = False) -
 def _ensure_refs(history: typing.List[dict], lay: Layout) -> None:
     idx_file = lay.refs / "index.json"
     index = json.loads(idx_file.read_text()) if idx_file.exists() else {}
-    ev = history[-1]
-    miss = [[k, ev["ns"], o, ev["lang"], ev["tpl"], ev["pps"]] for k, o in needed_refs(ev) if k not in index]
+    miss = [[k, rev] for k, rev in needed_refs(history[-1]) if k not in index]
     if miss:
         index.update(_ref_job({"scratch": str(lay.base.parent), "refs": miss}))
         idx_file.write_text(json.dumps(index))
@@ -948,7 +1093,7 @@ def _ensure_refs(history: typing.List[dict], lay: Layout) -> None:
 
 def _confirm(ctx: Ctx, lay: Layout) -> None:
     for v in list(ctx.bag.v.values()):
-        res = in_child(_exec_history, v.case["history"], lay)
+        res = in_child(_exec_history, _norm_history(v.case["history"]), lay)
         sigs = {json.dumps(x.sig, sort_keys=True) for x in res["bag"].v.values()}
         want = dict(v.sig)
         if json.dumps(want, sort_keys=True) not in sigs:
@@ -963,7 +1108,7 @@ def replay(ctx: Ctx, case: dict) -> int:
 
     lay = Layout(ctx.scratch)
     lay.materialize()
-    history = case["history"]
+    history = _norm_history(case["history"])
     _ensure_refs(history, lay)
     res = in_child(_exec_history, history, lay, True)
     print("history:")
@@ -975,11 +1120,11 @@ def replay(ctx: Ctx, case: dict) -> int:
     refs = _load_refs(lay)
     ev = history[-1]
     shown = 0
-    for key, _ in needed_refs(ev):
+    for key, rev in needed_refs(ev):
+        whole_set = flagged(ev) or rev["S"] == sorted(ev["S"]) and len(needed_refs(ev)) > len(ev["S"]) and key == needed_refs(ev)[-1][0]
         for rel, h in sorted(refs[key]["files"].items()):
-            t_first = key.split("|")[4].split(",")[0]
-            is_t = refs[key]["type_path"].get(t_first) == rel and key.split("|")[4].split(",") != sorted(ev["S"])
-            is_ns = rel in refs[key]["ns_paths"] and key.split("|")[4].split(",") == sorted(ev["S"])
+            is_t = refs[key]["type_path"].get(rev["S"][0]) == rel or (flagged(ev) and rel in refs[key]["type_path"].values())
+            is_ns = rel in refs[key]["ns_paths"] and whole_set
             if not (is_t or is_ns) or rel not in r.files:
                 continue
             ref = _read_ref(lay, key, h)
